@@ -3,7 +3,7 @@
    what the real replay applies to damaged log files; the abstract protocol of Model/Wal.v for the
    resulting state). *)
 From Coq Require Import NArith List Bool Arith.
-From PDB Require Import Gen.Consts Model.Wal Model.WalCodec Proofs.WalProofs Proofs.WalCodecProofs Proofs.WalCodecRoundTrip.
+From PDB Require Import Gen.Consts Model.Wal Model.WalCodec Proofs.WalProofs Proofs.WalCodecProofs Proofs.WalCodecRoundTrip Proofs.WalCodecRange.
 Import ListNotations.
 Open Scope N_scope.
 
@@ -108,6 +108,25 @@ Example C13_nonvacuous :
   replay_ids 1 [[1; 2; 3]; ex_rec 7 ++ [77]] = [7].
 Proof. vm_compute. repeat split; reflexivity. Qed.
 
+(* "Does not panic" for the part that is logic: an index (reference count) action of an accepted record names a
+   chunk INSIDE the table file it addresses - the CHUNK_LEN bytes that enact_plan writes at
+   META_SIZE + index * CHUNK_LEN end at or before the end of the file - for arbitrary bytes, whatever their checksum.
+   The bound the code's validation uses is regenerated from src/index.rs / src/ref_count.rs (Gen/Consts.v:
+   *_validate_chunk_factor); with `total_entries` instead of `total_chunks` (defect F26) these proofs do not go through. *)
+Theorem C13_accepted_index_action_writes_inside_the_file :
+  forall ncols b t i m es rest, parse_action ncols b = AOk (AIndex t i m es) rest ->
+  t / 256 < ncols /\ i < 2 ^ (t mod 256) /\ index_write_end i <= index_file_size (t mod 256) /\
+  length es = (popcount 64 m * 8)%nat.
+Proof. exact accepted_index_action_in_range. Qed.
+
+Theorem C13_accepted_counter_action_writes_inside_the_file :
+  forall ncols b t i m es rest, parse_action ncols b = AOk (ARefc t i m es) rest ->
+  t / 256 < ncols /\ i < 2 ^ (t mod 256) /\ refcount_write_end i <= refcount_file_size (t mod 256) /\
+  length es = (popcount 64 m * 16)%nat.
+Proof. exact accepted_counter_action_in_range. Qed.
+
+Print Assumptions C13_accepted_index_action_writes_inside_the_file.
+Print Assumptions C13_accepted_counter_action_writes_inside_the_file.
 Print Assumptions C13_replay_applies_only_valid_consecutive.
 Print Assumptions C13_accepted_record_is_complete_and_checksummed.
 Print Assumptions C13_nothing_after_invalid.
